@@ -88,6 +88,7 @@ C_FUNCS = [
     ("src/core/array.c", "core", "cfun_array_pop"),
     ("src/core/array.c", "core", "cfun_array_peek"),
     ("src/core/array.c", "core", "cfun_array_push"),
+    ("src/core/buffer.c", "core", "cfun_buffer_slice"),
 ]
 
 # boot.janet definitions (defn / defn- / defmacro / defmacro-)
